@@ -2,7 +2,7 @@
 """Re-run every filed seeded change against the CURRENT checks (quick tier): apply
 seeded/<id>/patch.diff to a scratch copy of /repo's working tree, run the check(s) recorded in
 its meta.json as catching it (SYMV_REPO=<copy>, no evidence written) and expect exit 1.
-  tools/seed_regress.py [--only C05] [--workers N] [--first-only]  -> table on stdout, exit 1 if any seed got away"""
+  tools/seed_regress.py [--only C05] [--names C05g,C15e] [--seed N] [--workers N] [--first-only]  -> table on stdout, exit 1 if any seed got away"""
 import json, os, shutil, subprocess, sys, tempfile, time
 
 here = os.path.dirname(os.path.dirname(os.path.abspath(__file__)))
@@ -10,11 +10,13 @@ args = sys.argv[1:]
 only = args[args.index("--only") + 1] if "--only" in args else None
 workers = args[args.index("--workers") + 1] if "--workers" in args else None
 first_only = "--first-only" in args
+seed = args[args.index("--seed") + 1] if "--seed" in args else None
+names = args[args.index("--names") + 1].split(",") if "--names" in args else None
 bad = 0
 for d in sorted(os.listdir(os.path.join(here, "seeded"))):
     sd = os.path.join(here, "seeded", d)
     mp = os.path.join(sd, "meta.json")
-    if not os.path.isfile(mp) or (only and not d.startswith(only)):
+    if not os.path.isfile(mp) or (only and not d.startswith(only)) or (names and d not in names):
         continue
     meta = json.load(open(mp))
     prop = meta.get("property", d[:3])
@@ -34,7 +36,7 @@ for d in sorted(os.listdir(os.path.join(here, "seeded"))):
         out = []
         for c in checks:
             t0 = time.time()
-            cmd = [os.path.join(here, "vcheck"), c] + (["--workers", workers] if workers else [])
+            cmd = [os.path.join(here, "vcheck"), c] + (["--workers", workers] if workers else []) + (["--seed", seed] if seed else [])
             r = subprocess.run(cmd, capture_output=True, text=True, env={**os.environ, "SYMV_REPO": tmp, "SYMV_NO_EVIDENCE": "1"})
             out.append(f"{c}:exit{r.returncode}({time.time() - t0:.0f}s)")
             if r.returncode == 1:
